@@ -91,6 +91,17 @@ Section Model.
      a + b and x += x rebuild an operand with the class's own constructor [sdctor] *)
   Definition sd_add_to_data (o other : cf) : cf :=
     mkCf (comps o ++ comps other) (lamb o + lamb other) (temp o) (cutoff o) (data o + data other).
+  (* SpectralDensity(axis, params) on a list of components: one loop (dispatch and maker in the same iteration), nothing is
+     refused; the temperature is the last component's; a spectral density has no cut-off time *)
+  Definition sd_make_one (f : nat) (o : cf) (c : comp) : cf :=
+    mkCf (comps o ++ [c]) (lamb o + clam c) (Some (ctemp c)) (cutoff o) (data o + gen f c).
+  (* the CP29 maker as the pinned tree has it (known finding sd:cp29:composed / sd:cp29:declared_units): it receives the
+     component as submitted, OVERWRITES the data and the reorganisation energy accumulated by the components before it,
+     and stores the reorganisation energy in the units of declaration ([lraw c]; [d] = the data it makes from the raw set) *)
+  Definition sd_make_one_cp29_pinned (lraw : comp -> R) (o : cf) (c : comp) (d : R) : cf :=
+    mkCf (comps o ++ [c]) (lraw c) (Some (ctemp c)) (cutoff o) d.
+  Definition sd_ctor (cs : list comp) : option cf :=
+    Some (fold_left (fun o c => sd_make_one (ftype c) o c) cs (mkCf [] 0 None 0%Q 0)).
   Definition sd_add (sdctor : list comp -> option cf) (a b : cf) : option cf :=
     match sdctor (comps a) with Some f => Some (sd_add_to_data f b) | None => None end.
   Definition sd_iadd_self (sdctor : list comp -> option cf) (x : cf) : option cf :=
